@@ -183,11 +183,11 @@ func vC09Derive(rt *rapid.T, prev []vC09Blk, rel string) []vC09Blk {
 }
 
 // vC09DrawCase draws the whole input: keys, files, blocks, tombstones.
-func vC09DrawCase(rt *rapid.T, maxFiles int) *vC09Case {
+func vC09DrawCase(rt *rapid.T, maxFiles int, blockLimit bool) *vC09Case {
 	c := &vC09Case{}
-	// rare scenario: one key with more points than one file may hold blocks of (65535) when
-	// re-chunked at one point per block, so the compactor must roll over to a second file
-	blockLimit := rapid.IntRange(0, 149).Draw(rt, "blockLimit") == 0
+	// blockLimit scenario (TestVerifC09BlockLimit): one key with more points than one file may
+	// hold blocks of (65535) when re-chunked at one point per block, so the compactor must roll
+	// over to a second file
 	nkeys := rapid.SampledFrom([]int{1, 1, 2, 2, 3, 3, 4, 6, 12}).Draw(rt, "nkeys")
 	if blockLimit && nkeys > 2 {
 		nkeys = 2
